@@ -207,7 +207,14 @@ def run(ctx):
         ctx.dist("accepted-" + it[0] + ("-" + it[3] if it[3] else ""))
     # ---- 2. documents: the accepted programs packed with many bindings per object, colliding prefixes, > 32 and > 64 bindings
     docs = []
-    pool = list(accepted)
+    # constructs of the listed findings go into documents of their own, so that the packed documents are judged as a whole
+    suspect = re.compile(r"Math\.(max|min)\(|%|\.[ef]\b[^;\n]*[&|^]|[&|^][^;\n]*\.[ef]\b")
+    pool = [it for it in accepted if not suspect.search(it[2])]
+    alone = [it for it in accepted if suspect.search(it[2])]
+    ctx.coverage["programs_compiled_alone"] = len(alone)
+    for it in alone:
+        kind, name, src, t = it
+        docs.append((cxx.document([("tgt", name, src)]) if kind == "binding" else cxx.document([], [("a", name, src)]), [it], [("root", "VObj")] + cxx.OBJECT_DECLS))
     rng.shuffle(pool)
     sizes = [1, 2, 5, 12, 31, 32, 33, 40, 64, 65, 70]
     while pool:
@@ -247,6 +254,7 @@ def run(ctx):
     nbind = []
     lit_terms = []
     known = ctx.known_classes()
+    seen_known = {}
     for (k, d, doc, chunk, header), (rc, err) in zip(jobs, results):
         rep = {"qml": doc, "impl_output": header}
         nbind.append(len(re.findall(r"void update\w+\(\)", header)))
@@ -254,12 +262,17 @@ def run(ctx):
             first = next((l for l in err.split("\n") if "error" in l), err[:300])
             # narrow down to the offending binding: recompile each one alone
             culprit = None
-            for (kind, name, src, t) in chunk:
-                one = cxx.document([("tgt", name, src)]) if kind == "binding" else cxx.document([], [("a", name, src)])
-                r1 = qml.run_docs(vh, [one])[0]
-                d1 = os.path.join(work, "single")
+            ones = [cxx.document([("tgt", name, src)]) if kind == "binding" else cxx.document([], [("a", name, src)]) for (kind, name, src, t) in chunk]
+            r1s = qml.run_docs(vh, ones)
+
+            def one_job(a):
+                idx, r1 = a
+                d1 = os.path.join(work, "single%d_%d" % (k, idx))
                 cxx.write_runtime(d1, [("root", "VObj")] + cxx.OBJECT_DECLS)
-                rc1, err1 = cxx.syntax_check(d1, r1["header"])
+                return cxx.syntax_check(d1, r1["header"])
+            with concurrent.futures.ThreadPoolExecutor(max_workers=C.NCPU) as ex2:
+                outs1 = list(ex2.map(one_job, list(enumerate(r1s))))
+            for (kind, name, src, t), one, r1, (rc1, err1) in zip(chunk, ones, r1s, outs1):
                 if rc1 != 0:
                     culprit = (kind, name, src, next((l for l in err1.split("\n") if "error" in l), ""), one, r1["header"])
                     break
@@ -267,7 +280,9 @@ def run(ctx):
                 what = "the support header of an accepted binding is not valid C++: %s: %s  --  %s" % (culprit[1], culprit[2][:120], culprit[3][-200:])
                 cls = classify_known(culprit[2], culprit[3])
                 if cls and cls in known:
-                    ctx.known_finding(cls, what)
+                    seen_known[cls] = seen_known.get(cls, 0) + 1
+                    if seen_known[cls] == 1:
+                        ctx.known_finding(cls, what.replace("\n", " "))
                     continue
                 ctx.violation(what, {"qml": culprit[4], "impl_output": culprit[5], "compiler": culprit[3], "theorem_or_correspondence": "valid C++17 against the API declarations / g++"})
             else:
@@ -285,8 +300,22 @@ def run(ctx):
         for lit in literal_texts(header):
             dec = decode_cxx_literal(lit)
             if dec is None:
-                ctx.violation("ill-formed string literal in the header: %r" % lit[:60], dict(rep, theorem_or_correspondence="C16_literal / S"))
+                ctx.violation("ill-formed string literal in the header: %r" % lit[:60], dict(rep, theorem_or_correspondence="C16_literal_denotes_source / S"))
                 break
+            lit_terms.append((C.coq_list([str(ord(ch)) for ch in dec]) if dec else "[]", C.coq_list([str(ord(ch)) for ch in lit]) if lit else "[]"))
+    # ---- K: the speller of model/Header.v vs the literals of the real headers
+    lit_terms = list(dict.fromkeys(lit_terms))
+    ctx.coverage["literals_compared_with_model"] = len(lit_terms)
+    if ctx.model_ok and lit_terms:
+        hdr = "From QV Require Import model.Base model.Names model.Header.\nFixpoint nl_eqb (a b : list N) : bool := match a, b with [] , [] => true | x :: r, y :: s => N.eqb x y && nl_eqb r s | _, _ => false end."
+        badk = C.coq_eval_mismatches("c16", hdr, lit_terms, "nl_eqb", "spell", "list N * list N", shard_size=100, scope="N_scope")
+        ctx.coverage["disagreements_model"] = len(badk)
+        if badk and not ctx.violations:
+            j = badk[0]
+            mo = C.coq_eval_terms("c16_model", hdr, ["spell %s" % lit_terms[j][0]], scope="N_scope")
+            ctx.broke("K", "binding.rs format_cxx_utf16_string_literal vs model/Header.v spell", "model and implementation spell %d strings differently; first: string %s\nmodel=%s\nimpl=%s"
+                      % (len(badk), lit_terms[j][0], mo[0][:500], lit_terms[j][1][:500]))
+    ctx.coverage["known_finding_instances"] = seen_known
     ctx.coverage["documents_compiled"] = len(jobs)
     ctx.coverage["max_bindings_in_a_document"] = max(nbind) if nbind else 0
     ctx.coverage["documents_with_more_than_32_bindings"] = sum(1 for x in nbind if x > 32)
@@ -299,4 +328,38 @@ def run(ctx):
 
 
 def classify_known(src, err):
+    """the listed findings, identified by the construct and the compiler's complaint"""
+    if re.search(r"Math\.(max|min)\(", src) and re.search(r"no matching function for call to .(max|min)\(", err):
+        return "minmax_operands_of_different_cxx_types"
+    if "%" in src and re.search(r"invalid operands of types .*double.* to binary .operator%", err):
+        return "modulo_on_double"
+    if re.search(r"[&|^]", src) and re.search(r"invalid conversion from .int. to .\w+::\w+", err):
+        return "bitwise_operator_on_plain_enums"
     return None
+
+
+def es_value(body):
+    """the ECMAScript value of a string body made of plain characters and the escapes the generator prints"""
+    out = []
+    i = 0
+    while i < len(body):
+        ch = body[i]
+        if ch != "\\":
+            out.append(ch)
+            i += 1
+            continue
+        e = body[i + 1]
+        if e == "x":
+            out.append(chr(int(body[i + 2:i + 4], 16)))
+            i += 4
+        elif e == "u" and body[i + 2] == "{":
+            j = body.index("}", i)
+            out.append(chr(int(body[i + 3:j], 16)))
+            i = j + 1
+        elif e == "u":
+            out.append(chr(int(body[i + 2:i + 6], 16)))
+            i += 6
+        else:
+            out.append({"n": "\n", "t": "\t", "r": "\r", "0": "\0", "b": "\b", "f": "\f", "v": "\v"}.get(e, e))
+            i += 2
+    return "".join(out)
